@@ -203,6 +203,70 @@ eq_harness!(animator_merged_arm, {
     assert!(m.verif_timeline_of(&Ui::Idle).is_none() && m.verif_timeline_of(&Ui::Hover).is_none());
 });
 
+eq_harness!(animator_three_state_arm_out_of_order, {
+    // three states in one arm, listed in an order different from the enum's, after a single-state arm for none of them;
+    // `default` as the body of an N% keyframe
+    let m = animator!(Style {
+        default(Ui::Press, { y: 9 }),
+        Ui::Press | Ui::Idle | Ui::Hover => 2s 50% default to { x: 100 }
+    });
+    let d = Style { y: 9, ..Default::default() };
+    let tl = || Style::timeline().duration_seconds(2.0).keyframe(Style::keyframe_from(&d, 50.0 * 0.01)).keyframe(Style::keyframe(1.0).x(100));
+    let b = StateAnimatorBuilder::new()
+        .from_state(Ui::Press)
+        .from_values(d.clone())
+        .on(Ui::Press, tl())
+        .on(Ui::Idle, tl())
+        .on(Ui::Hover, tl())
+        .build();
+    assert!(same_animator(&m, &b));
+});
+
+eq_harness!(animator_multi_state_merged_arm_and_single_arm, {
+    // a bracketed list under `A | B`, with `default` inside a list member, next to an ordinary arm
+    let m = animator!(Dot {
+        default(Ui::Idle, { r: 2 }),
+        Ui::Hover | Ui::Press => [1s to { r: 3 }, 2s after 1s to default],
+        Ui::Idle => 1s to { r: 7 }
+    });
+    let d = Dot { r: 2 };
+    let ml = || MT::of([
+        Dot::timeline().duration_seconds(1.0).keyframe(Dot::keyframe(1.0).r(3)).build(),
+        Dot::timeline().duration_seconds(2.0).delay_seconds(1.0).keyframe(Dot::keyframe_from(&d, 1.0)).build(),
+    ]);
+    let b = StateAnimatorBuilder::new()
+        .from_state(Ui::Idle)
+        .from_values(d.clone())
+        .on(Ui::Hover, ml())
+        .on(Ui::Press, ml())
+        .on(Ui::Idle, Dot::timeline().duration_seconds(1.0).keyframe(Dot::keyframe(1.0).r(7)))
+        .build();
+    assert!(m.current_state() == b.current_state() && m.current_values() == b.current_values() && m.verif_time_and_pause() == b.verif_time_and_pause());
+    for s in [Ui::Hover, Ui::Press] {
+        let (x, y) = (m.verif_timeline_of(&s).unwrap().timelines_ref(), b.verif_timeline_of(&s).unwrap().timelines_ref());
+        assert!(x.len() == 2 && y.len() == 2 && same_dot(&x[0], &y[0]) && same_dot(&x[1], &y[1]));
+    }
+    let (x, y) = (m.verif_timeline_of(&Ui::Idle).unwrap().timelines_ref(), b.verif_timeline_of(&Ui::Idle).unwrap().timelines_ref());
+    assert!(x.len() == 1 && y.len() == 1 && same_dot(&x[0], &y[0]));
+});
+
+eq_harness!(animator_state_in_two_arms_later_arm_wins, {
+    // arms are `.on` calls in the order written: a state named again in a later arm gets the later timeline
+    let m = animator!(Style {
+        Ui::Idle | Ui::Hover => 2s to { x: 100 },
+        Ui::Hover => 1s to { y: 5 }
+    });
+    let b = StateAnimatorBuilder::new()
+        .from_values(Style::default())
+        .on(Ui::Idle, Style::timeline().duration_seconds(2.0).keyframe(Style::keyframe(1.0).x(100)))
+        .on(Ui::Hover, Style::timeline().duration_seconds(2.0).keyframe(Style::keyframe(1.0).x(100)))
+        .on(Ui::Hover, Style::timeline().duration_seconds(1.0).keyframe(Style::keyframe(1.0).y(5)))
+        .build();
+    assert!(same_animator(&m, &b));
+    assert!(m.verif_timeline_of(&Ui::Hover).unwrap().cycle_duration() == Some(1.0));
+    assert!(m.verif_timeline_of(&Ui::Idle).unwrap().cycle_duration() == Some(2.0));
+});
+
 eq_harness!(animator_expression_default_and_no_default, {
     let init = Style { x: 200, y: 1 };
     let m = animator!(Style {
